@@ -52,6 +52,10 @@ type sqlPoint struct {
 	Height  uint32 `json:"height"`
 	Attempt int    `json:"attempt"`
 	Idx     int    `json:"idx"`
+	// Step (queries only): the query call succeeds and the first step of the
+	// result set fails, which is where the real driver reports a failure
+	// during iteration (seen only by code that checks rows.Err()).
+	Step bool `json:"step,omitempty"`
 }
 
 type checkC02 struct{}
@@ -364,8 +368,39 @@ func (checkC02) Run(env *Env, sc *Scenario) (*Violation, error) {
 					viol = &Violation{Prop: "C02", Oracle: "resume-liveness", Signature: "resume stalls: " + trunc(rc.Exit, 40),
 						Detail: fmt.Sprintf("crash %s: restarted node stuck at %d (exit=%q) target %d; last daemon errors: %q", where, rc.Synced(), rc.Exit, target, errs)}
 				} else if hh, msg := compareHeights(ref, rc.Heights); msg != "" {
-					viol = &Violation{Prop: "C02", Oracle: "resume-equals-uninterrupted", Signature: "resumed ledger differs: " + msg,
-						Detail: fmt.Sprintf("crash %s: after restart, height %d: %s", where, hh, msg)}
+					// A restart alone can change later results (C09's known finding: the
+					// rolling averages are rebuilt differently). The crash is only to
+					// blame if a daemon stopped *cleanly* at the same height and started
+					// again does not end up where the recovered one did.
+					ctl := sim.NewReplica(w, env.Dir("ctl"))
+					ctl.Follow, ctl.PerHeight = true, true
+					same := false
+					if ctl.Start() == nil {
+						env.Stats.Lifetimes++
+						if ctl.RunTo(s) {
+							ctl.Stop()
+							if ctl.Start() == nil {
+								env.Stats.Lifetimes++
+								ctl.RunTo(target)
+								same = true
+								for hc, d := range rc.Heights {
+									if hc <= s {
+										continue
+									}
+									if c := ctl.Heights[hc]; d != nil && (c == nil || c.Total != d.Total) {
+										same = false
+									}
+								}
+							}
+						}
+						ctl.Stop()
+					}
+					if same {
+						env.Stats.Probe("difference_is_restart_effect_not_crash(C09)")
+					} else {
+						viol = &Violation{Prop: "C02", Oracle: "resume-equals-uninterrupted", Signature: "resumed ledger differs: " + msg,
+							Detail: fmt.Sprintf("crash %s: after restart, height %d: %s (a daemon stopped cleanly at %d and restarted does not show this)", where, hh, msg, s)}
+					}
 				}
 			}
 			rc.Stop()
